@@ -430,7 +430,7 @@ def check_model_free(ck, hcmd, scripts, label, opts, rng, ndouble):
     stats = ck.cov["families"].setdefault(label, {"scripts": 0, "faults": 0, "fired": 0, "reported": 0,
                                                   "absorbed": 0, "double": 0, "requests": 0})
     base = [["fail"] + s + ["end"] for s in scripts]
-    outs0 = run_cases(ck, hcmd, base)
+    outs0 = par_run_cases(ck, hcmd, base)
     jobs = []          # (script index, fail numbers)
     for i, o in enumerate(outs0):
         stats["scripts"] += 1
@@ -453,7 +453,8 @@ def check_model_free(ck, hcmd, scripts, label, opts, rng, ndouble):
     for c in cases:
         ck.distinct(tuple(c))
     ck.count(len(cases) + len(base))
-    outs = run_cases(ck, hcmd, cases)
+    ck.cov["op_lines"] = ck.cov.get("op_lines", 0) + sum(len(c) + 1 for c in cases + base)
+    outs = par_run_cases(ck, hcmd, cases)
     refs = []
     nviol = 0
     for (i, ks), c, o in zip(jobs, cases, outs):
@@ -484,7 +485,7 @@ def check_model_free(ck, hcmd, scripts, label, opts, rng, ndouble):
                 continue            # contents after a partially applied op need a model
             ref = ["fail"] + [("nop" if (j + 1) in skip else l) for j, l in enumerate(scripts[i])] + ["end"]
             refs.append((c, o, ref, skip))
-    routs = run_cases(ck, hcmd, [r[2] for r in refs])
+    routs = par_run_cases(ck, hcmd, [r[2] for r in refs])
     for (c, o, ref, skip), ro in zip(refs, routs):
         for j in range(1, len(c) - 1):
             if j in skip:
@@ -530,32 +531,41 @@ def classify_model_free(ck, hcmd, case, opts):
 
 def report_model_free(ck, hcmd, label, case, out, msg, cls, opts):
     """shrink (keeping the class) and record a violation found by the monitor"""
-    head, body, tail = case[0], case[1:-1], case[-1]
+    head, body, tail = case[0], case[1:-1], [case[-1]]
+    if cls in ("leak", "leak-at-failure") and len(body) > 1:
+        # a leak is only a leak with the teardown in place: the last op stays
+        body, tail = body[:-1], [body[-1]] + tail
 
     def still(cand):
-        c, _, _ = classify_model_free(ck, hcmd, [head] + list(cand) + [tail], opts)
+        c, _, _ = classify_model_free(ck, hcmd, [head] + list(cand) + tail, opts)
         return c == cls
     small = vf.ddmin(body, still, budget=120) if len(body) > 1 and still(body) else body
-    final = [head] + list(small) + [tail]
+    final = [head] + list(small) + tail
     c2, m2, o2 = classify_model_free(ck, hcmd, final, opts)
     ck.report("obs", {"label": label + ":monitor", "ops": final, "class": cls,
                       "monitor": m2 or msg, "impl": o2[-10:], "model_free": True})
 
 
-def count_prefixes(ck, label, cases, outs):
-    st = ck.cov["families"].setdefault(label, {"scripts": 0, "faults": 0, "fired": 0, "reported": 0,
-                                               "absorbed": 0, "double": 0, "requests": 0})
-    return st
+def par_run_cases(ck, cmd, cases, chunk=1500, workers=8):
+    """run_cases over chunks in parallel (the children are separate processes)"""
+    from concurrent.futures import ThreadPoolExecutor
+    parts = list(vf.chunks(cases, chunk))
+    if len(parts) <= 1:
+        return run_cases(ck, cmd, cases)
+    with ThreadPoolExecutor(max_workers=workers) as ex:
+        res = list(ex.map(lambda c: run_cases(ck, cmd, c), parts))
+    return [o for r in res for o in r]
 
 
 def run_modelled(ck, hcmd, dcmd, name, scripts, rng, ndouble):
     """fault enumeration for a family with Lean model: request count from a fault-free run of the
-    implementation, then every k (and random pairs) through implementation AND model."""
+    implementation, then every k (and random pairs) through implementation AND model.  The two
+    output streams are compared here; every case that differs, and every case the monitor
+    flags, is handed to ck.compare_cases (shrinking, classification, replay file)."""
     st = ck.cov["families"].setdefault(name, {"scripts": 0, "faults": 0, "fired": 0, "reported": 0,
                                               "absorbed": 0, "double": 0, "requests": 0})
     base = [["fail"] + s + ["end"] for s in scripts]
-    nf = ck.compare_cases(hcmd, dcmd, base, label=name + ":fault-free", monitor=monitor)
-    outs0 = run_cases(ck, hcmd, base)
+    outs0 = par_run_cases(ck, hcmd, base)
     cases = []
     for s, o in zip(scripts, outs0):
         st["scripts"] += 1
@@ -571,16 +581,29 @@ def run_modelled(ck, hcmd, dcmd, name, scripts, rng, ndouble):
                 cases.append(["fail %d %d" % (min(a, b), max(a, b))] + s + ["end"])
                 st["double"] += 1
     st["faults"] += len(cases)
-    for ch in vf.chunks(cases, 4000):
-        nf += ck.compare_cases(hcmd, dcmd, ch, label=name, monitor=monitor)
-        # how often did the fault fire / get reported (measured on the implementation's output)
-        for o in run_cases(ck, hcmd, ch):
-            if o and o[-1].startswith("req=") and "fired=0" not in o[-1]:
-                st["fired"] += 1
-                if any(l.startswith("F:") for l in o):
-                    st["reported"] += 1
-                elif any(l.startswith("A:") for l in o):
-                    st["absorbed"] += 1
+    allc = base + cases
+    outs_c = outs0 + par_run_cases(ck, hcmd, cases)
+    outs_m = par_run_cases(ck, dcmd, allc)
+    for c in allc:
+        ck.distinct(tuple(c))
+    ck.count(len(allc))
+    ck.cov["op_lines"] = ck.cov.get("op_lines", 0) + sum(len(c) + 1 for c in allc)
+    suspects = []
+    for i, (c, oc, om) in enumerate(zip(allc, outs_c, outs_m)):
+        if i >= len(base) and oc and oc[-1].startswith("req=") and "fired=0" not in oc[-1]:
+            st["fired"] += 1
+            if any(l.startswith("F:") for l in oc):
+                st["reported"] += 1
+            elif any(l.startswith("A:") for l in oc):
+                st["absorbed"] += 1
+        if oc != om or any(True for _ in monitor(["#case"] + c, ["#case"] + oc)):
+            suspects.append(c)
+    nf = 0
+    if suspects:
+        # standard handling (re-run, shrink, classify observable/internal, write replay)
+        ev = ck.cov["evaluations"]
+        nf = ck.compare_cases(hcmd, dcmd, suspects[:6], label=name, monitor=monitor)
+        ck.cov["evaluations"] = ev
     return nf, cases
 
 
